@@ -98,13 +98,15 @@ structure St where
   maxStored : Nat := 0
   interesting : Bool := false
   branches : List String := []
+  mm : Option String := none    -- first model/implementation disagreement (the scan goes on: a later SPECFAIL wins)
 
 def addBr (st : St) (b : String) : St := if st.branches.contains b then st else { st with branches := b :: st.branches }
 def addBrs (st : St) (bs : List String) : St := bs.foldl addBr st
 
 /-- Explain a spec failure on the observed output: only by a recorded deviation whose input predicate holds AND
 whose predicted (model) output is exactly what was observed. -/
-def classify (st : St) (clause detail : String) (modelAgrees : Bool) (orderOnly : Bool) : Verdict :=
+def classify (st : St) (clause detail : String) (modelAgrees0 : Bool) (orderOnly : Bool) : Verdict :=
+  let modelAgrees := modelAgrees0 && st.mm.isNone
   if modelAgrees && st.illFormed then .known "path-clean-keys" s!"{clause} {detail}"
   else if modelAgrees && st.uniqViol then .known "unique-index-no-check" s!"{clause} {detail}"
   else if modelAgrees && orderOnly then .known "index-order-separator" s!"{clause} {detail}"
@@ -172,7 +174,7 @@ def judge (_id : String) (lines : Array String) : Verdict := Id.run do
       let sp := match absGet st.m id with | some o => s!"ok {renderObj o}" | none => "err:missing"
       st := addBr st (if (absGet st.m id).isSome then "get-stored" else "get-absent")
       if obsS != sp then return classify st "get-returns-last-stored" s!"get {esc i}: spec {sp} observed {obsS}" (obsS == model) false
-      if obsS != model then return .mismatch s!"get {esc i}: model {model} observed {obsS}"
+      if obsS != model && st.mm.isNone then st := { st with mm := some s!"get {esc i}: model {model} observed {obsS}" }
     | ["list", ix, pat, off, lim, rev] =>
       let some ix := unesc ix | return .badop l
       let some pat := unesc pat | return .badop l
@@ -193,14 +195,14 @@ def judge (_id : String) (lines : Array String) : Verdict := Id.run do
         -- composite-key order is what was observed (= model)
         let orderOnly := lowSepDev i st.m
         return classify st clause s!"list {esc ix} {escL pat} {off} {lim} {rev}: spec {sp} observed {obsS}" (obsS == model) orderOnly
-      if obsS != model then return .mismatch s!"list {esc ix}: model {model} observed {obsS}"
+      if obsS != model && st.mm.isNone then st := { st with mm := some s!"list {esc ix}: model {model} observed {obsS}" }
     | ["dump"] =>
       if st.dumpValid then
         if st.prevDump != some obsS then
           return .specfail "failed-op-leaves-no-trace" s!"raw bucket changed without a committed operation: before {st.prevDump.getD "?"} after {obsS}"
       let model := renderDump st.kv
-      if obsS != model then
-        return .mismatch s!"dump: model {model} observed {obsS}"
+      if obsS != model && st.mm.isNone then
+        st := { st with mm := some s!"dump: model {model} observed {obsS}" }
       st := { st with prevDump := some obsS, dumpValid := true }
     | _ =>
       match parseOp opT with
@@ -214,7 +216,8 @@ def judge (_id : String) (lines : Array String) : Verdict := Id.run do
           let (_, r) := specApply st.m op
           return classify st "operation-result" s!"{" ".intercalate opT}: spec {renderErr r} observed {renderErr res}" (res == mres) false
         | some m' =>
-          if res != mres then return .mismatch s!"{" ".intercalate opT}: model {renderErr mres} observed {renderErr res}"
+          if res != mres && st.mm.isNone then
+            st := { st with mm := some s!"{" ".intercalate opT}: model {renderErr mres} observed {renderErr res}" }
           let committed := res == none && opT != ["reopen"]
           if committed then
             match op.obj? with
@@ -231,7 +234,9 @@ def judge (_id : String) (lines : Array String) : Verdict := Id.run do
           if !uniqueOK st.cfg st.m then st := { st with uniqViol := true }
           st := addBrs st (stateBranches st)
       | none => return .badop l
-  return .ok (st.maxStored ≥ 2 && st.interesting) st.branches.reverse
+  match st.mm with
+  | some d => return .mismatch d
+  | none => return .ok (st.maxStored ≥ 2 && st.interesting) st.branches.reverse
 
 end Kap.C15.Drv
 
